@@ -119,6 +119,13 @@ BUILTIN_ENUMS = {
 }
 
 
+# bool-returning variant tests: qname -> (variant asserted when true, all variants)
+VARIANT_TESTS = {
+    'std::result::Result::is_err': ('Err', ('Ok', 'Err')), 'std::result::Result::is_ok': ('Ok', ('Ok', 'Err')),
+    'std::option::Option::is_some': ('Some', ('Some', 'None')), 'std::option::Option::is_none': ('None', ('Some', 'None')),
+}
+
+
 class Call:
     __slots__ = ('body', 'bb', 'f', 'args', 'dest', 'target', 'unwind', 'line', 'from_exp', 'qname', 'name', 'trait',
                  'self_ty', 'gargs', 'local', 'callee_id', 'resolved_id', 'resolved', 'indirect', 'krate', 'impl_self',
@@ -619,7 +626,15 @@ class Body:
             break
         ty = self.local_ty(local) if not proj else ''
         if ty == 'bool':
-            return ('bool', self.orig_place((local, proj), None, live), neg)
+            os_ = self.orig_place((local, proj), None, live)
+            # `r.is_err()` / `o.is_some()` tested as a bool is a variant test on r / o: same guard as `if let Err(..) = r`
+            if os_ and all(o.kind == 'call' and not o.path and o.key in self.calls and self.calls[o.key].qname in VARIANT_TESTS and self.calls[o.key].args for o in os_):
+                tests = {self.calls[o.key].qname for o in os_}
+                if len(tests) == 1:
+                    subj = frozenset().union(*[self.orig_operand(self.calls[o.key].args[0], None, live) for o in os_])
+                    yes, both = VARIANT_TESTS[next(iter(tests))]
+                    return ('enum', subj, ('test', yes, both, neg))
+            return ('bool', os_, neg)
         return ('int', self.orig_place((local, proj), None, live), None)
 
     def refine(self, base_avoid, start=0):
@@ -792,6 +807,21 @@ class Guard:
         """For enum subjects: the set of variant names this edge admits (None if unknown)."""
         if self.kind != 'enum':
             return None
+        if isinstance(self.extra, tuple):  # a bool-returning variant test (is_err / is_some / ...): see _switch_subject
+            _, yes, both, neg = self.extra
+            if self.value == 0:
+                t = False
+            elif self.value == 1:
+                t = True
+            elif self.value == 'otherwise' and self.listed == [0]:
+                t = True
+            elif self.value == 'otherwise' and self.listed == [1]:
+                t = False
+            else:
+                return None
+            if neg:
+                t = not t
+            return frozenset([yes]) if t else frozenset(both) - {yes}
         table = self.body.facts.enum_table(self.extra)
         if table is None:
             return None
